@@ -2,11 +2,15 @@
 C02 — Operator arithmetic is matrix arithmetic, whatever the grouping.
 
 Statements are over `ArithSem`: any semantics in which a composition denotes the composite, a sum the
-pointwise sum, the identity/scalar operators what their names say and a lazy inverse of an invertible
-operand its inverse (finding F13 is exactly the failure of this last law for singular diagonals).
+pointwise sum, the identity/scalar operators what their names say and a lazy inverse of an INVERTIBLE operand
+its inverse.  `LazyInvertible` is the hypothesis that the operand of a lazy-inverse object is invertible:
+finding F13 is exactly the case where it fails (the pseudo-inverse of a singular diagonal operator is a
+lazy-inverse object too).  `scalarArithSem` (Lemmas/ScalarModel.lean) shows the framework is inhabited by a
+non-trivial model.
 -/
 import FuraxProofs.Lemmas.ArithSound
 import FuraxProofs.Lemmas.Tables
+import FuraxProofs.Lemmas.ScalarModel
 namespace Furax.C02
 open Furax Op
 
@@ -18,9 +22,9 @@ theorem hierarchy_pinned : ∀ r ∈ Generated.classTable, hierarchyOk r = true 
 
 /-- `A @ B`: product of the maps and structures of the product, for every operand kind and every shortcut -/
 theorem matmul_den {V} (A : ArithSem V) (a b r : Op) (ha : ArithSem.WFtop a) (hb : ArithSem.WFtop b)
-    (h : pyMatmul a b = .ok r) :
+    (hai : A.LazyInvertible a) (hbi : A.LazyInvertible b) (h : pyMatmul a b = .ok r) :
     Op.inS a = Op.outS b ∧ Op.inS r = Op.inS b ∧ Op.outS r = Op.outS a ∧
-    ∀ x, A.mem (Op.inS b) x → A.den r x = A.den a (A.den b x) := A.pyMatmul_den a b r ha hb h
+    ∀ x, A.mem (Op.inS b) x → A.den r x = A.den a (A.den b x) := A.pyMatmul_den a b r ha hb hai hbi h
 
 /-- `A + B`: sum of the maps; the operand list is the concatenation of the summands of `A` and of `B`
 whatever the parenthesisation -/
@@ -31,21 +35,22 @@ theorem add_den {V} (A : ArithSem V) (a b r : Op) (ha : ArithSem.WFtop a) (hb : 
     ∀ x, A.den r x = A.add (A.den a x) (A.den b x) := A.pyAdd_den a b r ha hb h
 
 /-- `k * A` and `A * k` -/
-theorem rmul_den {V} (A : ArithSem V) (k : Rat) (a r : Op) (ha : ArithSem.WFtop a) (h : pyRmul k a = .ok r) :
+theorem rmul_den {V} (A : ArithSem V) (k : Rat) (a r : Op) (ha : ArithSem.WFtop a) (hai : A.LazyInvertible a)
+    (h : pyRmul k a = .ok r) :
     Op.inS r = Op.inS a ∧ Op.outS r = Op.outS a ∧
-    ∀ x, A.mem (Op.inS a) x → A.den r x = A.smul k (A.den a x) := A.pyRmul_den k a r ha h
+    ∀ x, A.mem (Op.inS a) x → A.den r x = A.smul k (A.den a x) := A.pyRmul_den k a r ha hai h
 
 /-- `A / k` -/
-theorem truediv_den {V} (A : ArithSem V) (k : Rat) (a r : Op) (ha : ArithSem.WFtop a)
+theorem truediv_den {V} (A : ArithSem V) (k : Rat) (a r : Op) (ha : ArithSem.WFtop a) (hai : A.LazyInvertible a)
     (h : pyTruediv a k = .ok r) :
     k ≠ 0 ∧ Op.inS r = Op.inS a ∧ Op.outS r = Op.outS a ∧
-    ∀ x, A.mem (Op.inS a) x → A.den r x = A.smul (1 / k) (A.den a x) := A.pyTruediv_den k a r ha h
+    ∀ x, A.mem (Op.inS a) x → A.den r x = A.smul (1 / k) (A.den a x) := A.pyTruediv_den k a r ha hai h
 
 /-- `-A` (for `A` not itself a sum; sums are negated summand by summand, checked differentially) -/
-theorem neg_den_partial {V} (A : ArithSem V) (a r : Op) (ha : ArithSem.WFtop a) (hns : a.isAdd = false)
-    (h : pyNeg a = .ok r) :
+theorem neg_den_partial {V} (A : ArithSem V) (a r : Op) (ha : ArithSem.WFtop a) (hai : A.LazyInvertible a)
+    (hns : a.isAdd = false) (h : pyNeg a = .ok r) :
     Op.inS r = Op.inS a ∧ Op.outS r = Op.outS a ∧
-    ∀ x, A.mem (Op.inS a) x → A.den r x = A.smul (-1) (A.den a x) := A.pyNeg_den a r ha hns h
+    ∀ x, A.mem (Op.inS a) x → A.den r x = A.smul (-1) (A.den a x) := A.pyNeg_den a r ha hai hns h
 
 /-- `+A` is `A` -/
 theorem pos_den (a : Op) : pyPos a = a := rfl
@@ -62,5 +67,8 @@ theorem matmul_rejects (a b : Op) (hs : Op.inS a ≠ Op.outS b) (hl : lazyInvers
 
 theorem add_sub_reject (a b : Op) (hs : Op.inS a ≠ Op.inS b ∨ Op.outS a ≠ Op.outS b) :
     pyAdd a b = .error .valueError ∧ pySub a b = .error .valueError := ArithSem.pyAdd_rejects a b hs
+
+/-- non-vacuity: the laws assumed above are satisfied by a concrete non-trivial semantics -/
+theorem framework_inhabited : Nonempty (ArithSem Rat) := ⟨scalarArithSem⟩
 
 end Furax.C02
